@@ -374,10 +374,18 @@ class Model:
         what made it dirty (rebuilt a dependency that had failed last time to the same checksum, turned a target whose rule is
         gone into a source, ...).  If n was definitely dirty in the state the command started from, a process that judged it
         before the sibling got there ran it: may-run, decided by the observation.  -> reason or None"""
-        if not (ctx.get('parallel') and ctx.get('start') is not None and self.obs_left(ctx, n)):
+        if not (ctx.get('start') is not None and self.obs_left(ctx, n)):
             return None
         if n not in ctx['start'].R or not ctx['start'].R[n].built or not ctx['start'].is_target(n):
             return None
+        if not ctx.get('parallel'):
+            # serial command: the same holds when what made n dirty at the start was a target whose rule has vanished and whose
+            # file is still there.  Looking at it says "dirty" (its recorded .do is missing) until somebody *builds* it, which
+            # turns it into an unchanged source; in which order redo gets to the two is a matter of hash order.
+            s0 = ctx['start']
+            if not any(d != n and s0.p.who(d) is None and s0.R[d].built and s0.R[d].exists and not s0.R[d].phony and not s0.R[d].failed
+                       and s0.is_target(d) for d in s0.closure_of(n)):
+                return None
         st = ctx['start'].copy()
         s0, why0 = st.status(n, st.new_ctx(keep=True), {})
         return str(why0) if s0 == 'dirty' else None
@@ -554,6 +562,11 @@ class Model:
                 r.watch_absent = None
         if depfail or p.fails(n) or p.hfails(n):
             r.failed = True
+            if r.removed_mark and r.stamped and not getattr(r, 'removed_bumped', False):
+                # a build attempt that fails while the hand-removed file is still missing records "missing" as the target's state:
+                # for redo the target has changed (whatever checksum a later successful build arrives at)
+                r.outver += 1
+                r.content = None
             # Targets that were *executed* earlier in this run and have n below them are not up to date any more (a forced rebuild
             # of n that fails after its dependents were built): redo re-examines executed targets when they are requested again
             # (only targets it merely checked - and checksummed ones, which redo-stamp marks - carry the "checked in this run"
